@@ -123,7 +123,13 @@ def layoutHandle (args : List String) : String :=
     let gs := ts.map tokToG
     let std := Gomjml.Spec.verdict Gomjml.Spec.stdStep "std:unclosed" gs true
     let mso := Gomjml.Spec.verdict Gomjml.Spec.msoStep "mso:unclosed" gs true
-    let vis := Gomjml.Spec.verdict Gomjml.Spec.visStep "" gs false
+    -- visibility is judged leniently with respect to malformed markers (those are C02's), exactly as on the real bytes
+    let hiddenT := (gs.foldl (fun (acc : Nat × Nat) g =>
+      match g with
+      | .co => (1, acc.2) | .cc => (0, acc.2) | .nco => (2, acc.2) | .ncc => (0, acc.2)
+      | .t _ => if acc.1 == 1 then (acc.1, acc.2 + 1) else acc
+      | _ => acc) (0, 0)).2
+    let vis := if hiddenT == 0 then "ok" else "content-in-mso"
     s!"wf={wf} std={std} mso={mso} vis={vis} | " ++ " ".intercalate (ts.map showTok)
 
 /-! ### oracle on real bytes -/
